@@ -17,7 +17,15 @@ StepRec ==
          ELSE [p |-> "loop", from |-> "Tick", to |-> "Tick"] @@ base
 
 GInit == Init /\ sched = <<>>
-GNext == Next /\ sched' = IF vars' = vars THEN sched ELSE Append(sched, StepRec)
+\* Walks are generated for forcing: two things the harness cannot steer are left out of the walks (they stay in the
+\* model that TLC checks exhaustively): the real TTL watcher takes an expired request at once (a walk in which the loop
+\* still pops it could not be followed), and it stops with the context (no scan after cancellation).
+PopOK == hs # <<>> => LET h == hs[HeadIdx(hs)] IN ~(h \in watch /\ state[h] = "enqueued" /\ now >= expireAt[h])
+GStep == \/ \E self \in Req : R(self)
+         \/ Tick \/ (Pop /\ PopOK) \/ Grant \/ Requeue
+         \/ (Scan /\ ~cancelled) \/ Signal
+         \/ Sh \/ Clk
+GNext == GStep /\ sched' = IF vars' = vars THEN sched ELSE Append(sched, StepRec)
 GSpec == GInit /\ [][GNext]_<<vars, sched>>
 
 Quiescent == (\A i \in Req : pc[i] = "Done") /\ now = MaxNow
